@@ -26,7 +26,7 @@ META = dict(
              "verified trace monitor (accepts_iff, model_runs_accepted). PARTIAL: the implementation is tied by trace "
              "conformance of a real app (pip:try through the terminal, probe events, handler submissions seen by a wrapper "
              "around the PipRunner service, Err() of the owner task and of the app scope), free-running (sampled) and steered "
-             "(288 enumerated combinations per round).",
+             "(288 enumerated combinations per round, 3 rounds quick / 40 thorough).",
         design_ref="DESIGN.md 3 C16"),
     level_note="Partial, as C14. Handlers are observed by their first probe command and by the outcome of their submission. "
                "'Never starts while the other handler is held' is decided through the explicit `stall` event after a generous "
@@ -39,7 +39,7 @@ META = dict(
 
 
 def run(ctx):
-    pc.run_family(ctx, "C16", "c16", 3000, 200000, ["C16", "C14"], steered=(288, 288 * 20))
+    pc.run_family(ctx, "C16", "c16", 3000, 200000, ["C16", "C14"], steered=(288 * 3, 288 * 40))
 
 
 def replay(ctx, path):
